@@ -21,7 +21,7 @@ EXPLANATION = (
     "are identified by their guard facts; the buffer kernel's three arms are identified by guard facts and the "
     "failing arm neither refetches nor moves the fetch position."
 )
-SHARED = [('C12', ['R7'], 'the too-small arm grows the buffer and does not move the fetch position (never skipping the message)')]
+SHARED = [('C12', ['R7'], 'the too-small arm grows the buffer and does not move the fetch position (never skipping the message)'), ('C02', ['R6'], 'what may be stored in the fetch position: the reset policy is applied as resolved by the broker')]
 ASSUMPTIONS = ["float arithmetic: x*F >= x for x >= 0 and F > 1", "reactor.callLater(delay, f) calls f once after delay"]
 CONS = "consumer:Consumer"
 
